@@ -14,6 +14,7 @@ Decides:
 Not decided: that the visibility graph contains a shortest path and that pruning never removes all of them.
 """
 import copy
+import re
 from fractions import Fraction
 
 from ..astq import strip, strip_casts, calls, call_args, call_object, writes, written_field, norm, literal_value, src, single_assignment_locals
@@ -378,7 +379,35 @@ def rule_sweep_candidates(chk, prog):
     ins = [c for c in calls(fn) if "::insert" in str(c.get("cname", "")) and call_object(c) is not None and norm(call_object(c)) == "v"]
     if len(ins) < 3:
         raise AnalysisBroken("vertexSweep: candidate insertions not found")
-    pcs = [path_condition(fn, c, inline=False) for c in ins]
+    from ..rules.guards import map_atoms
+    # names of the loop variable, the end sentinel and the centre id are the function's own business: normalise them
+    loops = [a for a in fn.ancestors(ins[0]) if a.get("k") == "ForStmt"]
+    lv = None
+    if loops and loops[0].get("init") is not None:
+        ds = [d for d in walk(loops[0]["init"]) if d.get("k") == "VarDecl"]
+        lv = ds[0].get("name") if ds else None
+    if not lv:
+        raise AnalysisBroken("vertexSweep: loop variable of the candidate loop not found")
+    raw = [path_condition(fn, c, inline=False) for c in ins]
+    names = set()
+    for pc in raw:
+        for a in atoms(pc):
+            for m_ in re.finditer(r"\b(\w+)\.isConn(Pt|ectionPin)\(\)", a):
+                if m_.group(1) != "id":
+                    names.add(m_.group(1))
+            m2 = re.search(r"== (\w+)\.objID\)", a)
+            if m2:
+                names.add(m2.group(1))
+    centre = sorted(n_ for n_ in names if n_ != lv)
+    if len(centre) != 1:
+        raise AnalysisBroken("vertexSweep: centre id variable not identified (%s)" % centre)
+
+    def canon(a):
+        a = re.sub(r"\b%s\b" % re.escape(lv), "inf", a)
+        a = re.sub(r"\b%s\b" % re.escape(centre[0]), "centerID", a)
+        a = re.sub(r"\(inf != \w+\)", "(inf != endVert)", a)
+        return a
+    pcs = [map_atoms(pc, canon) for pc in raw]
     got = pcs[0]
     for pc in pcs[1:]:
         got = ("or", got, pc)
